@@ -1,0 +1,78 @@
+//go:build verif
+
+package level
+
+// govc contracts for this package (see /verif/DESIGN.md). Comment-only.
+
+// ---------------------------------------------------------------- BitStorage (C11)
+//
+// Representation invariant and abstract view. The view is written from the
+// property statement (floor(64/bits) values per long, from the low bits, no
+// value spanning two longs) over `bits` and `data` only; the derived fields
+// mask / valuesPerLong are tied to `bits` by the invariant.
+
+//@ define bssize(bits, n) = ite(bits == 0, 0, (n + 64/bits - 1) / (64/bits))
+//@ define bswf(b) = 0 <= b.bits && b.bits <= 32 && 0 <= b.length && b.length < 1<<40 && b.valuesPerLong == ite(b.bits == 0, 0, 64/b.bits) && b.mask == ite(b.bits == 0, 0, (uint64(1) << uint64(b.bits)) - 1) && (b.bits != 0 ==> len(b.data) == bssize(b.bits, b.length))
+//@ define bsat(b, i) = ite(b.bits == 0, 0, int((b.data[i / (64/b.bits)] >> uint64((i % (64/b.bits)) * b.bits)) & ((uint64(1) << uint64(b.bits)) - 1)))
+
+//@ func (*BitStorage).Get(b; i) (res)
+//@   split b.bits in 0..32
+//@   requires bswf(b)
+//@   panics when b.bits != 0 && (i < 0 || i >= b.length)
+//@   ensures res == bsat(b, i)                                                       [@value]
+//@   modifies nothing                                                                [@frame]
+
+//@ func (*BitStorage).Set(b; i, v)
+//@   split b.bits in 0..32
+//@   requires bswf(b)
+//@   panics when b.bits != 0 && (v < 0 || uint64(v) > b.mask || i < 0 || i >= b.length)
+//@   ensures b.bits != 0 ==> bsat(b, i) == v                                         [@value]
+//@   ensures all(j, 0, b.length, j != i ==> bsat(b, j) == old(bsat(b, j)))           [@frame]
+//@   ensures bswf(b)                                                                 [@wf]
+//@   modifies b.data[:]                                                              [@frame]
+
+//@ func (*BitStorage).Swap(b; i, v) (prev)
+//@   split b.bits in 0..32
+//@   requires bswf(b)
+//@   panics when b.bits != 0 && (v < 0 || uint64(v) > b.mask || i < 0 || i >= b.length)
+//@   ensures prev == old(bsat(b, i))                                                 [@value]
+//@   ensures b.bits != 0 ==> bsat(b, i) == v                                         [@value]
+//@   ensures all(j, 0, b.length, j != i ==> bsat(b, j) == old(bsat(b, j)))           [@frame]
+//@   ensures bswf(b)                                                                 [@wf]
+//@   modifies b.data[:]                                                              [@frame]
+
+//@ func (*BitStorage).Len(b) (res)
+//@   ensures res == b.length
+//@   modifies nothing
+
+//@ func (*BitStorage).Raw(b) (res)
+//@   ensures res == b.data
+//@   modifies nothing
+
+// The exported size rule, characterised independently of the code's formula:
+// the size is the least number of longs whose capacity (floor(64/bits) values
+// each) reaches length.
+//@ func calcBitStorageSize(bits, length) (size)
+//@   split bits in 0..32
+//@   requires 0 <= length && length < 1<<40
+//@   ensures size == bssize(bits, length)                                            [@value]
+//@   ensures bits == 0 ==> size == 0                                                 [@value]
+//@   ensures bits != 0 ==> size >= 0 && size * (64/bits) >= length && (size == 0 || (size - 1) * (64/bits) < length)   [@value]
+//@   modifies nothing
+
+//@ func NewBitStorage(bits, length, data) (b)
+//@   split bits in 0..32
+//@   requires 0 <= length && length < 1<<40
+//@   panics when bits != 0 && !isnil(data) && len(data) != bssize(bits, length)
+//@   ensures bswf(b) && b.bits == bits && b.length == length                         [@wf]
+//@   ensures bits != 0 ==> all(k, 0, len(b.data), b.data[k] == ite(isnil(data), 0, data[k]))   [@value]
+//@   ensures fresh(b) && (bits != 0 ==> fresh(b.data))                               [@value]
+//@   modifies nothing                                                                [@frame]
+
+//@ func (*BitStorage).Fix(b; bits) (err)
+//@   split bits in 0..32
+//@   requires 0 <= b.length && b.length < 1<<40
+//@   ensures (err == nil) == (bits == 0 || len(b.data) == bssize(bits, b.length))   [@value]
+//@   ensures err == nil ==> bswf(b) && b.bits == bits                                [@wf]
+//@   ensures b.length == old(b.length) && b.data == old(b.data)                      [@frame]
+//@   modifies b.mask, b.bits, b.valuesPerLong                                        [@frame]
